@@ -203,16 +203,93 @@ where
     };
     let routing_info = RoutingInfo::default();
     let span = RequestSpan::new_query("verif");
-    let targets: Vec<VerifTarget> = cfg
-        .targets
+    run_with_params(
+        &params,
+        &routing_info,
+        &span,
+        &cfg.targets,
+        &cfg.pool_errors,
+        log,
+        attempt,
+    )
+    .await
+}
+
+/// A statement as a user configures it (public setters: idempotence, consistency, retry policy,
+/// timeout, history listener, execution profile handle).
+pub enum VerifStatement {
+    Unprepared(crate::statement::unprepared::Statement),
+    Batch(crate::statement::batch::Batch),
+}
+
+/// Like [`run_request`], but the execution parameters are resolved by the production
+/// `RequestExecutionParams::new_for_session_apis` from a user-configured statement and an
+/// execution profile, the way `Session::{query,execute,batch}` do it (the statement's own profile
+/// handle if it has one, else `default_profile` - mirrors `client/session.rs`).
+pub async fn run_request_for_statement<F, Fut>(
+    statement: VerifStatement,
+    default_profile: crate::client::execution_profile::ExecutionProfileHandle,
+    targets: Vec<bool>,
+    pool_errors: Vec<ConnectionPoolError>,
+    log: ExecLog,
+    attempt: F,
+) -> ExecResult
+where
+    F: Fn(usize, Consistency) -> Fut,
+    Fut: Future<Output = Result<String, RequestAttemptError>>,
+{
+    let config = match &statement {
+        VerifStatement::Unprepared(s) => &s.config,
+        VerifStatement::Batch(b) => &b.config,
+    };
+    let execution_profile = config
+        .execution_profile_handle
+        .as_ref()
+        .unwrap_or(&default_profile)
+        .access();
+    let metrics = Arc::new(Metrics::new());
+    let params = RequestExecutionParams::new_for_session_apis(
+        config,
+        &execution_profile,
+        &metrics,
+        RequestPaging::Unpaged,
+    );
+    let routing_info = RoutingInfo::default();
+    let span = RequestSpan::new_query("verif");
+    run_with_params(
+        &params,
+        &routing_info,
+        &span,
+        &targets,
+        &pool_errors,
+        log,
+        attempt,
+    )
+    .await
+}
+
+async fn run_with_params<'a, F, Fut>(
+    params: &RequestExecutionParams<'a>,
+    routing_info: &'a RoutingInfo<'a>,
+    span: &'a RequestSpan,
+    target_has_connection: &[bool],
+    pool_errors: &[ConnectionPoolError],
+    log: ExecLog,
+    attempt: F,
+) -> ExecResult
+where
+    F: Fn(usize, Consistency) -> Fut,
+    Fut: Future<Output = Result<String, RequestAttemptError>>,
+{
+    let targets: Vec<VerifTarget> = target_has_connection
         .iter()
         .enumerate()
         .map(|(idx, has_conn)| VerifTarget {
             idx,
-            pool_error: if cfg.pool_errors.is_empty() {
+            pool_error: if pool_errors.is_empty() {
                 ConnectionPoolError::Initializing
             } else {
-                cfg.pool_errors[idx % cfg.pool_errors.len()].clone()
+                pool_errors[idx % pool_errors.len()].clone()
             },
             connection: has_conn
                 .then(|| Arc::new(Connection::verif_exec_placeholder(target_addr(idx)))),
@@ -234,7 +311,7 @@ where
         }
     };
     match params
-        .run_request_no_side_effects(&routing_info, plan, run_request_once, &span)
+        .run_request_no_side_effects(routing_info, plan, run_request_once, span)
         .await
     {
         Ok(outcome) => match outcome.result {
